@@ -94,6 +94,13 @@ class Flow:
                     self.pts[pl[0]].add(rv[-1][0])
                     if rv[0] == "raw" or rv[1] == "mut":
                         mutref[pl[0]] = True
+                # `vec![a, b, ..]` lowers to Box::new_uninit + a store through the box's raw pointer
+                # (`_p = transmute(_box.0.pointer); (*_p).value.. = [a, b, ..]`): the pointer stands for the box's contents
+                if rv[0] == "cast" and not pl[1]:
+                    sp = op_place(rv[2])
+                    if sp is not None and sp[1] and fn.locals[sp[0]].startswith("std::boxed::Box<") and \
+                            fn.locals[pl[0]].startswith(("*const", "*mut", "std::ptr::NonNull<")):
+                        self.pts[pl[0]].add(sp[0])
             t = blk[1]
             k = t[0]
             if k == "call":
